@@ -63,7 +63,10 @@ impl<T: Clone> Clone for RangeInclusiveSet<T> {
     fn clone(&self) -> Self {
         let mut out = Self::default();
         let mut i = 0;
-        while i < self.len {
+        while i < CAP {
+            if i >= self.len {
+                break;
+            }
             out.items[i] = self.items[i].clone();
             i += 1;
         }
@@ -78,7 +81,10 @@ impl<T: PartialEq> PartialEq for RangeInclusiveSet<T> {
             return false;
         }
         let mut i = 0;
-        while i < self.len {
+        while i < CAP {
+            if i >= self.len {
+                break;
+            }
             if self.items[i] != other.items[i] {
                 return false;
             }
@@ -160,7 +166,10 @@ impl<T> RangeInclusiveSet<T> {
 impl<T: Ord + Clone + StepLite> RangeInclusiveSet<T> {
     pub fn get(&self, value: &T) -> Option<&RangeInclusive<T>> {
         let mut i = 0;
-        while i < self.len {
+        while i < CAP {
+            if i >= self.len {
+                break;
+            }
             let r = self.at(i);
             if r.start() <= value && value <= r.end() {
                 return Some(r);
@@ -180,7 +189,10 @@ impl<T: Ord + Clone + StepLite> RangeInclusiveSet<T> {
         let mut out = Self::default();
         let mut placed = false;
         let mut i = 0;
-        while i < self.len {
+        while i < CAP {
+            if i >= self.len {
+                break;
+            }
             let r = match self.items[i].take() {
                 Some(r) => r,
                 None => unreachable!(),
@@ -219,7 +231,10 @@ impl<T: Ord + Clone + StepLite> RangeInclusiveSet<T> {
         assert!(range.start() <= range.end(), "Range start can not be after range end");
         let mut out = Self::default();
         let mut i = 0;
-        while i < self.len {
+        while i < CAP {
+            if i >= self.len {
+                break;
+            }
             let r = match self.items[i].take() {
                 Some(r) => r,
                 None => unreachable!(),
@@ -325,16 +340,21 @@ impl<'a, T: Ord, R: Borrow<RangeInclusive<T>>> Iterator for Overlapping<'a, T, R
         if self.done {
             return None;
         }
-        while self.idx < self.set.len {
+        // constant trip count (CAP): independent of the harness' unwind bound
+        let mut k = 0;
+        while k < CAP {
+            if self.idx >= self.set.len {
+                break;
+            }
             let r = self.set.at(self.idx);
             self.idx += 1;
-            if r.end() < self.query.borrow().start() {
-                continue;
+            if !(r.end() < self.query.borrow().start()) {
+                if r.start() <= self.query.borrow().end() {
+                    return Some(r);
+                }
+                break;
             }
-            if r.start() <= self.query.borrow().end() {
-                return Some(r);
-            }
-            break;
+            k += 1;
         }
         self.done = true;
         None
@@ -351,7 +371,9 @@ pub struct Gaps<'a, T> {
 impl<'a, T: Ord + Clone + StepLite> Iterator for Gaps<'a, T> {
     type Item = RangeInclusive<T>;
     fn next(&mut self) -> Option<Self::Item> {
-        loop {
+        // one flat pass with a constant trip count (CAP + 1)
+        let mut k = 0;
+        while k <= CAP {
             let cur = match &self.cursor {
                 None => return None,
                 Some(c) => c.clone(),
@@ -360,32 +382,30 @@ impl<'a, T: Ord + Clone + StepLite> Iterator for Gaps<'a, T> {
                 self.cursor = None;
                 return None;
             }
-            // skip stored ranges that end before the cursor
-            let mut hit: Option<&RangeInclusive<T>> = None;
-            while self.idx < self.set.len {
-                let r = self.set.at(self.idx);
-                if r.end() < &cur {
-                    self.idx += 1;
-                    continue;
-                }
-                hit = Some(r);
-                break;
+            if self.idx >= self.set.len {
+                // no stored range left: tail gap
+                self.cursor = None;
+                return Some(cur..=self.end.clone());
             }
-            match hit {
-                Some(r) if r.start() <= self.end => {
-                    // advance the cursor past r
-                    self.idx += 1;
-                    self.cursor = if r.end() >= self.end { None } else { Some(r.end().add_one()) };
-                    if cur < *r.start() {
-                        return Some(cur..=r.start().sub_one());
-                    }
-                }
-                _ => {
-                    self.cursor = None;
-                    return Some(cur..=self.end.clone());
+            let r = self.set.at(self.idx);
+            if r.end() < &cur {
+                // stored range entirely before the cursor: skip it
+                self.idx += 1;
+            } else if r.start() > self.end {
+                // stored range entirely after the outer range: tail gap
+                self.cursor = None;
+                return Some(cur..=self.end.clone());
+            } else {
+                // r intersects [cur, end]: move the cursor past it, emit the gap before it (if any)
+                self.idx += 1;
+                self.cursor = if r.end() >= self.end { None } else { Some(r.end().add_one()) };
+                if cur < *r.start() {
+                    return Some(cur..=r.start().sub_one());
                 }
             }
+            k += 1;
         }
+        None
     }
 }
 
